@@ -88,3 +88,36 @@ func TestVerif_SmokeAlpha(t *testing.T) {
 		t.Fatalf("alpha: %d %+v", r.Code, h)
 	}
 }
+
+func TestVerif_SmokeRedisModes(t *testing.T) {
+	w := vfNewWorld(t)
+	defer w.Close()
+	for _, mode := range []string{"cluster", "sentinel"} {
+		hub := vfNewRedisHub(w.Redis())
+		f := hub.Front(0)
+		p := w.MustProxy(append([]string{"--session-store-type=redis", "--cookie-refresh=1m", "--cookie-expire=1h"}, f.ModeFlags(mode, "")...)...)
+		b := vfNewBrowser("")
+		if _, _, err := b.Login(p, vfStdIdentity, "/"); err != nil {
+			t.Fatalf("[%s] %v", mode, err)
+		}
+		if r := b.Get(p, "/x"); r.Code != 200 {
+			t.Fatalf("[%s] status %d", mode, r.Code)
+		}
+		if r := b.Get(p, "/oauth2/sign_out"); r.Code != 302 {
+			t.Fatalf("[%s] sign-out status %d", mode, r.Code)
+		}
+		for _, c := range hub.Log() {
+			t.Logf("[%s] %d op=%-8s %v -> %s", mode, c.Seq, c.Op, c.Args, c.Reply)
+		}
+		hub.Close()
+		// direct (no front)
+		p2 := w.MustProxy(append([]string{"--session-store-type=redis"}, w.RedisModeFlags(mode)...)...)
+		b2 := vfNewBrowser("")
+		if _, _, err := b2.Login(p2, vfStdIdentity, "/"); err != nil {
+			t.Fatalf("[%s direct] %v", mode, err)
+		}
+		if r := b2.Get(p2, "/x"); r.Code != 200 {
+			t.Fatalf("[%s direct] status %d", mode, r.Code)
+		}
+	}
+}
